@@ -29,6 +29,12 @@ WHAT A STEP IS (evaluation order of the body; nested closures are read in place,
          `let … else { }` -> `!(e ~ P)`
 Log macros (`debug! info! warn! error! trace!`) are ignored.  Statements that are not calls (assignments, `let`s
 without `?`) produce no step.
+LETS THAT FEED A GUARD (phase 4, closes the S18 limit).  Besides the steps, every function has the table `lets`:
+the `let`s and assignments whose bound local occurs in a guard of a step — directly or through another recorded
+`let` (transitive closure over initialisers and guards) — as ⟨bound locals `$k` | assigned place, principal callee of
+the initialiser, initialiser skeleton (`op= value` for an assignment), enclosing guards⟩, in source order.  The exact
+pins compare it (`<fn>.lets = pin_lets_<fn>`), the semantic modules its callee names (`<fn>_guard_inputs`).  So
+`let weight = weight_by_iok(0, $3, $4); if weight > max { Err }` with swapped arguments now breaks the pin.
 
 WHAT IS TRUSTED / NOT SEEN.  This is a syntactic reading, not a Rust front end: it does not know types (a discarded
 call is reported whether or not it returns a `Result`), does not expand macros, does not follow calls (each callee
@@ -146,6 +152,7 @@ class Names:
 class Shape:
     def __init__(self):
         self.steps = []
+        self.lets = []      # (vars ["$k"…] | [target skeleton], principal name, initialiser skeleton, guards)
         self.nm = Names()
 
     # ---------------------------------------------------------------- skeleton printer
@@ -487,7 +494,13 @@ class Shape:
                         self.emit("call", self.principal(it.init), self.sk(it.init), "", guards)
                     if getattr(it, "els", None) is not None:
                         self.block(it.els, guards + [f"!({self.sk(it.init)} ~ {self.pk(it.pat)})"])
-                self.bind_pat(it.pat)
+                    init_sk, init_nm = self.sk(it.init), self.principal(it.init)
+                    n0 = self.nm.n
+                    self.bind_pat(it.pat)
+                    if self.nm.n > n0:
+                        self.lets.append(([f"${i}" for i in range(n0, self.nm.n)], init_nm, init_sk, list(guards)))
+                else:
+                    self.bind_pat(it.pat)
             else:
                 e = it.e
                 st = e
@@ -496,6 +509,9 @@ class Shape:
                 if st.kind == "macrocall" and st.name.split("::")[-1] in LOG_MACROS:
                     continue
                 self.expr(e, guards)
+                if st.kind == "assign":
+                    self.lets.append(([self.sk(st.target)], self.principal(st.value),
+                                      f"{st.op} {self.sk(st.value)}", list(guards)))
                 if self.is_call(st):
                     self.emit("call", self.principal(st), self.sk(st), "", guards)
                 elif st.kind == "macrocall":
@@ -577,7 +593,37 @@ def shape_of(toks, item):
     for n in params:
         sh.nm.bind(n)
     sh.block(body, [], tail=True)
-    return sh.steps
+    return sh.steps, guard_lets(sh.steps, sh.lets)
+
+
+_LOCAL = __import__("re").compile(r"\$\d+")
+
+
+def guard_lets(steps, lets):
+    """the `let`s / assignments whose bound local occurs in a guard of a step, or (transitively) in the initialiser
+    or guard of such a `let`: the values the CONDITIONS of the function are computed from (closes the S18 limit:
+    `let weight = weight_by_iok(0, $3, $4); if weight > max { fail }`)"""
+    need = set()
+    for _, _, _, _, guards in steps:
+        for g in guards:
+            need.update(_LOCAL.findall(g))
+    keep = [False] * len(lets)
+    changed = True
+    while changed:
+        changed = False
+        for i, (vs, _, init, guards) in enumerate(lets):
+            if keep[i]:
+                continue
+            roots = set()
+            for v in vs:
+                roots.update(_LOCAL.findall(v)[:1])
+            if roots & need:
+                keep[i] = True
+                changed = True
+                need.update(_LOCAL.findall(init))
+                for g in guards:
+                    need.update(_LOCAL.findall(g))
+    return [l for i, l in enumerate(lets) if keep[i]]
 
 
 def lean_str(s):
@@ -611,19 +657,48 @@ structure Step where
   guard : List String
   deriving DecidableEq, Repr, Inhabited
 
+/-- a `let` (or an assignment to a local) whose bound local FEEDS A GUARD of a step — directly or through another
+recorded `let`: the conditions of the function are computed from these -/
+structure LetRec where
+  /-- the locals bound by the pattern (`$k`), or the skeleton of the assigned place -/
+  vars : List String
+  /-- principal callee of the initialiser -/
+  name : String
+  /-- the initialiser, locals alpha-normalised (`op= value` for an assignment) -/
+  init : String
+  guard : List String
+  deriving DecidableEq, Repr, Inhabited
+
 structure FnShape where
   name : String
   parseError : Option String
   steps : List Step
+  /-- the `let`s / assignments that feed a guard, in source order -/
+  lets : List LetRec := []
   deriving Repr, Inhabited
 
 end GV.Gen.PipeShape
 '''
 
 
-def render_fn(lean, rust, steps, err):
+def render_lets(lets, ind):
+    out = []
+    for i, (vs, name, init, guards) in enumerate(lets):
+        v = "[" + ", ".join(lean_str(x) for x in vs) + "]"
+        g = "[" + ", ".join(lean_str(x) for x in guards) + "]"
+        out.append(f"{ind}⟨{v}, {lean_str(name)}, {lean_str(init)}, {g}⟩" + ("," if i < len(lets) - 1 else ""))
+    return out
+
+
+def render_fn(lean, rust, steps, err, lets=()):
     out = [f"/-- `{rust}` -/", f"def {lean} : FnShape :=",
            f"  {{ name := {lean_str(rust)}, parseError := {'none' if err is None else 'some ' + lean_str(err)},"]
+    if lets:
+        out.append("    lets := [")
+        out += render_lets(lets, "      ")
+        out.append("    ],")
+    else:
+        out.append("    lets := [],")
     if not steps:
         out.append("    steps := [] }")
         return out
@@ -642,7 +717,7 @@ def extract(repo):
     res = {}
     for area, rel, impl, trait, fn, lean in TARGETS:
         rust = (f"<{impl} as {trait}>::" if trait else (impl + "::" if impl else "")) + fn + f" ({rel})"
-        steps, err = [], None
+        steps, lets, err = [], [], None
         try:
             if rel not in cache:
                 p = os.path.join(repo, rel)
@@ -657,10 +732,10 @@ def extract(repo):
             if isinstance(cache[rel], Exception):
                 raise cache[rel]
             toks, items = cache[rel]
-            steps = shape_of(toks, locate(items, impl, trait, fn))
+            steps, lets = shape_of(toks, locate(items, impl, trait, fn))
         except Exception as ex:      # noqa: fail closed, never propagate
-            steps, err = [], f"{type(ex).__name__}: {ex}"
-        res.setdefault(area, []).append((lean, rust, steps, err))
+            steps, lets, err = [], [], f"{type(ex).__name__}: {ex}"
+        res.setdefault(area, []).append((lean, rust, steps, err, lets))
     return res
 
 
@@ -673,7 +748,7 @@ def generate(repo_root, die=None):
     except Exception as ex:      # noqa
         res = {}
         for area, rel, impl, trait, fn, lean in TARGETS:
-            res.setdefault(area, []).append((lean, fn, [], f"extractor failed: {ex}"))
+            res.setdefault(area, []).append((lean, fn, [], f"extractor failed: {ex}", []))
     for area in sorted({t[0] for t in TARGETS}):
         srcs = []
         for t in TARGETS:
@@ -685,9 +760,9 @@ def generate(repo_root, die=None):
                  "Data only: the ordered validation steps of the listed functions (reading rules: header of",
                  "tools/gen_pipeshape.py; obligations: Props/XlateShape" + area + ".lean). -/",
                  "namespace GV.Gen.PipeShape", ""]
-        for lean, rust, steps, err in res.get(area, []):
-            lines += render_fn(lean, rust, steps, err) + [""]
-        lines.append(f"def all{area} : List FnShape := [" + ", ".join(l for l, _, _, _ in res.get(area, [])) + "]")
+        for lean, rust, steps, err, lets in res.get(area, []):
+            lines += render_fn(lean, rust, steps, err, lets) + [""]
+        lines.append(f"def all{area} : List FnShape := [" + ", ".join(l for l, _, _, _, _ in res.get(area, [])) + "]")
         lines += ["", "end GV.Gen.PipeShape"]
         files[f"PipeShape{area}.lean"] = "\n".join(lines) + "\n"
     return files
@@ -708,7 +783,7 @@ def pins(repo, area):
            "The semantic obligations (order the hand models assume, every check propagated, early returns) are in",
            f"`Props/XlateShape{area}.lean`, stated over the GENERATED tables. -/",
            f"namespace GV.Props.XlateShape{area}Pins", "open GV.Gen.PipeShape", ""]
-    for lean, rust, steps, err in res.get(area, []):
+    for lean, rust, steps, err, lets in res.get(area, []):
         out.append(f"/-- reviewed shape of `{rust}` -/")
         out.append(f"def pin_{lean} : List Step := [")
         for i, (kind, name, what, e, guards) in enumerate(steps):
@@ -716,7 +791,12 @@ def pins(repo, area):
             out.append(f"  ⟨.{kind}, {lean_str(name)}, {lean_str(what)}, {lean_str(e)}, {g}⟩" +
                        ("," if i < len(steps) - 1 else ""))
         out.append("]")
-        out.append(f"theorem {lean}_pinned : {lean}.parseError = none ∧ {lean}.steps = pin_{lean} := ⟨rfl, rfl⟩")
+        out.append(f"/-- reviewed `let`s / assignments that feed a guard of `{rust}` -/")
+        out.append(f"def pin_lets_{lean} : List LetRec := [")
+        out += render_lets(lets, "  ")
+        out.append("]")
+        out.append(f"theorem {lean}_pinned : {lean}.parseError = none ∧ {lean}.steps = pin_{lean} ∧ "
+                   f"{lean}.lets = pin_lets_{lean} := ⟨rfl, rfl, rfl⟩")
         out.append("")
     out.append(f"end GV.Props.XlateShape{area}Pins")
     return "\n".join(out) + "\n"
@@ -749,7 +829,7 @@ def obligations(repo, area):
            "`Props/XlateShapeModel.lean`. -/",
            f"namespace GV.Props.XlateShape{area}", "open GV.Gen.PipeShape GV.Props.XlateShape", "",
            "set_option maxRecDepth 4000", ""]
-    for lean, rust, steps, err in res.get(area, []):
+    for lean, rust, steps, err, lets in res.get(area, []):
         spine = [n for k, n, _, _, _ in steps if k in ("check", "fail", "tail")]
         calls = [n for k, n, _, _, _ in steps if k == "call"]
         early = [g for k, _, _, _, g in steps if k == "okEarly"]
@@ -776,6 +856,7 @@ def obligations(repo, area):
         out.append(f"theorem {lean}_errors : fails {lean} = [" + ", ".join(f"({lean_str(a)}, {lean_str(b)})" for a, b in fails) +
                    f"]\n    ∧ mapped {lean} = [" + ", ".join(f"({lean_str(a)}, {lean_str(b)})" for a, b in mapped) + "] := by decide")
         out.append(f"theorem {lean}_depth : depths {lean} = [" + ", ".join(str(d) for d in depths) + "] := by decide")
+        out.append(f"theorem {lean}_guard_inputs : guardInputs {lean} = {ls([n for _, n, _, _ in lets])} := by decide")
         out.append("")
     out.append(f"end GV.Props.XlateShape{area}")
     return "\n".join(out) + "\n"
@@ -811,8 +892,8 @@ def main(argv):
             if not (os.path.exists(p) and open(p).read() == content):
                 open(p, "w").write(content)
     for area, fns in sorted(extract(repo).items()):
-        for lean, rust, steps, err in fns:
-            print(f"{area:6s} {lean:40s} {len(steps):3d} steps" + (f"  PARSE ERROR: {err}" if err else ""))
+        for lean, rust, steps, err, lets in fns:
+            print(f"{area:6s} {lean:40s} {len(steps):3d} steps {len(lets):2d} lets" + (f"  PARSE ERROR: {err}" if err else ""))
     return 0
 
 
